@@ -45,20 +45,53 @@ pub enum FitOut {
     Ok(Fitted),
     Err(String),
     Panic(mc::PanicInfo),
-    /// only from `fit_watched`: no answer within the watchdog time
+    /// only from `fit_watched`: no answer after this many milliseconds of CPU time
     Hang(u64),
 }
 
-/// `fit_raw` on a thread of its own, abandoned after `ms` milliseconds. Used only for the small input
-/// classes in which the library is known to be able to loop (a looping call cannot be stopped, its
-/// thread keeps spinning until the worker process exits — these jobs are scheduled last).
-pub fn fit_watched(x: &Mat, y: &[f64], cfg: &Cfg, max_iter: usize, xp: &Mat, ms: u64) -> FitOut {
+/// `fit_raw` on a thread of its own, abandoned once that thread has consumed `cpu_ms` milliseconds
+/// of CPU time without returning (read from /proc/<pid>/task/<tid>/stat, so the verdict does not
+/// depend on how busy the machine is; a fit of the sizes used here needs well under a millisecond).
+/// Used only for the small input classes in which the library is known to be able to loop. A looping
+/// call cannot be stopped: its thread keeps spinning until the worker process exits, which is why
+/// these jobs are scheduled last.
+pub fn fit_watched(x: &Mat, y: &[f64], cfg: &Cfg, max_iter: usize, xp: &Mat, cpu_ms: u64) -> FitOut {
+    use std::time::{Duration, Instant};
     let (tx, rx) = std::sync::mpsc::channel();
+    let (tid_tx, tid_rx) = std::sync::mpsc::channel();
     let (x2, y2, cfg2, xp2) = (x.clone(), y.to_vec(), cfg.clone(), xp.clone());
     std::thread::spawn(move || {
+        let _ = tid_tx.send(std::fs::read_link("/proc/thread-self").ok());
         let _ = tx.send(fit_raw(&x2, &y2, &cfg2, max_iter, &xp2));
     });
-    rx.recv_timeout(std::time::Duration::from_millis(ms)).unwrap_or(FitOut::Hang(ms))
+    let task = tid_rx.recv_timeout(Duration::from_secs(30)).ok().flatten();
+    let t0 = Instant::now();
+    loop {
+        match rx.recv_timeout(Duration::from_millis(20)) {
+            Ok(r) => return r,
+            Err(std::sync::mpsc::RecvTimeoutError::Disconnected) => return FitOut::Err("harness: the fitting thread ended without a result".into()),
+            Err(std::sync::mpsc::RecvTimeoutError::Timeout) => {
+                let wall = t0.elapsed().as_millis() as u64;
+                match task.as_ref().and_then(|t| thread_cpu_ms(t)) {
+                    Some(c) if c >= cpu_ms => return FitOut::Hang(c),
+                    // safety nets: no /proc (fall back to wall time), or a thread that is starved for a minute
+                    None if wall >= 4 * cpu_ms => return FitOut::Hang(wall),
+                    Some(_) if wall >= 120_000 => return FitOut::Hang(wall),
+                    _ => {}
+                }
+            }
+        }
+    }
+}
+
+/// utime + stime of one thread in milliseconds (clock ticks of 10 ms).
+fn thread_cpu_ms(task: &std::path::Path) -> Option<u64> {
+    let s = std::fs::read_to_string(std::path::Path::new("/proc").join(task).join("stat")).ok()?;
+    let rest = s.rsplit_once(')')?.1;
+    let f: Vec<&str> = rest.split_whitespace().collect();
+    // `rest` starts with field 3 (state); utime is field 14, stime field 15
+    let ticks = f.get(11)?.parse::<u64>().ok()? + f.get(12)?.parse::<u64>().ok()?;
+    Some(ticks * 10)
 }
 
 /// Calls the real estimator (fit, coefficients, intercept, predict) under a panic guard.
@@ -195,7 +228,7 @@ pub fn fit_and_judge(x: &Mat, y_in: &[f64], cfg: &Cfg, watchdog_ms: Option<u64>)
             return None;
         }
         FitOut::Hang(ms) => {
-            mc::violation(format!("{}.fit:loops:{}", est, class), format!("{}: fit has not returned after {} ms (a fit of this size takes well under a millisecond) — it loops", label(), ms));
+            mc::violation(format!("{}.fit:loops:{}", est, class), format!("{}: fit has not returned after consuming {} ms of CPU time (a fit of this size needs well under a millisecond) — it loops", label(), ms));
             mc::outcome(mc::hash::h_str("hang"));
             return None;
         }
